@@ -179,7 +179,8 @@ example :
     readAll (Dig := Bytes) id ⟨some [1,2,3], 4⟩ [.data [1], .data [], .dataEof [2,3]] = .error .unexpectedEOF ∧
     readAll (Dig := Bytes) id ⟨some [9], 3⟩ [.data [1], .data [], .dataEof [2,3]] = .error .mismatchedDigest ∧
     readAll (Dig := Bytes) id ⟨some [1,2,3], 3⟩ [.data [1], .dataErr [2,3]] = .error .readerErr ∧
+    readAll (Dig := Bytes) id ⟨some [1,2,3], 3⟩ [.data [1], .dataErrOnce [2,3], .eof] = .error .readerErr ∧
     readAll (Dig := Bytes) id ⟨some [], -1⟩ [] = .error .invalidSize := by
-  refine ⟨by rfl, by rfl, by rfl, by rfl, by rfl, by rfl⟩
+  refine ⟨by rfl, by rfl, by rfl, by rfl, by rfl, by rfl, by rfl⟩
 
 end Oras.Props.C05
